@@ -461,6 +461,11 @@ func (t *fnTrans) vc(o *Obligation, weakIx bool) string {
 			"(assert (forall ((sa Str) (sb Str) (sc Str)) (! (=> (and (str_lt sa sb) (str_lt sb sc)) (str_lt sa sc)) :pattern ((str_lt sa sb) (str_lt sb sc)))))\n"
 		text = strings.Replace(text, "(declare-fun unix (Int Int) Int)\n", "(declare-fun unix (Int Int) Int)\n"+ax, 1)
 	}
+	if strings.Contains(text, "(str_of_bytes ") && strings.Contains(text, "(str_at ") {
+		// string(b): the string has the bytes of the slice (position by position)
+		ax := "(assert (forall ((sa (Array Int Int)) (so Int) (sn Int) (si Int)) (! (=> (and (<= 0 si) (< si sn)) (= (str_at (str_of_bytes sa so sn) si) (select sa (ix so si)))) :pattern ((str_at (str_of_bytes sa so sn) si)))))\n"
+		text = strings.Replace(text, "(check-sat)", ax+"(check-sat)", 1)
+	}
 	if strings.Count(text, "(fieldaddr ") >= 2 {
 		// the address of a field determines the object and the field (two field addresses are equal only if both agree)
 		ax := "(declare-fun fieldaddr_id (Int) Int)\n(declare-fun fieldaddr_obj (Int) Int)\n" +
